@@ -91,17 +91,6 @@ pub open spec fn read_text(s: Seq<char>) -> Option<Seq<Seq<FieldV>>> {
     read_doc(tokens_of(LexState { sol: true, colon_seen: false, indented: false }, s), Seq::empty(), Seq::empty())
 }
 
-// ---- views of the exec data ------------------------------------------------------------------------
-// fields_view: ../lossy822/spec.rs
-pub open spec fn paras_view(ps: Seq<lossy::Paragraph>) -> Seq<Seq<FieldV>> { ps.map_values(|p: lossy::Paragraph| fields_view(p.fields@)) }
-
-/// the paragraph under construction: `cur0` followed by the field being read
-pub open spec fn cur_frame(cp: Seq<lossy::Field>, cur0: Seq<FieldV>, name0: Seq<char>) -> bool {
-    &&& cp.len() == cur0.len() + 1
-    &&& forall|i: int| 0 <= i < cur0.len() ==> (#[trigger] cp[i]).name@ == cur0[i].0 && cp[i].value@ == cur0[i].1
-    &&& cp.last().name@ == name0
-}
-
 // ---- the rest never grows ---------------------------------------------------------------------------
 pub proof fn lemma_rd_first_line_len(ts: Seq<Tok>, acc: Seq<char>)
     ensures rd_first_line(ts, acc) is Some ==> rd_first_line(ts, acc)->Some_0.1.len() <= ts.len()
